@@ -426,13 +426,13 @@ class Labels(JSONField):
                 if self.VALIDATORS.get(k, None) is not None:
                     if isinstance(v, list):
                         for i in v:
-                            matches = re.match('^' + self.VALIDATORS[k][0] + '$', i)
+                            matches = re.fullmatch(self.VALIDATORS[k][0], i)
                             if matches is None:
                                 raise LabelException(f'Provided label value {i} for {k} does not match the allowed '
                                                      f'regular expression {self.VALIDATORS[k][0]}, valid example is '
                                                      f'{self.VALIDATORS[k][1]}')
                     else:
-                        matches = re.match('^' + self.VALIDATORS[k][0] + '$', v)
+                        matches = re.fullmatch(self.VALIDATORS[k][0], v)
                         if matches is None:
                             raise LabelException(f'Provided label value {v} for {k} does not match the allowed '
                                                  f'regular expression {self.VALIDATORS[k][0]}, valid example is '
